@@ -21,13 +21,16 @@ R21 = ("R21", r"rrs\.retain\(\|rr\| rr\.ttl > 0\);", "shim_retain_positive_ttl(&
 R17 = ("R17", r"for tuples in partition\.records\.values\(\)", "for tuples in itv__: shim_hashmap_values(&partition.records)")
 
 from units.cache_upsert import UPSERT_FIXED_LOOPS, UPSERT_FIXED_ANCHORS
+from units.cache_step import STEP_SPEC
 
 SHIMS = """
+pub open spec fn unexp<V>(now: Instant) -> spec_fn((V, Instant)) -> bool { |t: (V, Instant)| inst(t.1) > inst(now) }
 spec fn none_instant(o: Option<Instant>) -> bool { o is None }
+spec fn some_instant(o: Option<Instant>) -> Instant { o->Some_0 }
 // R19: `tuples.retain(|(_, expiry)| expiry > &now)`
 #[verifier::external_body]
 fn shim_retain_unexpired<V>(tuples: &mut Vec<(V, Instant)>, now: Instant)
-    ensures final(tuples)@ == old(tuples)@.filter(|t: (V, Instant)| inst(t.1) > inst(now))
+    ensures final(tuples)@ == old(tuples)@.filter(unexp::<V>(now))
 { tuples.retain(|(_, expiry)| expiry > &now); }
 // R20: `map.keys().copied().collect::<Vec<K2>>()`
 #[verifier::external_body]
@@ -45,6 +48,146 @@ SPECS = {
     "PartitionedCache::with_desired_size": {"props": ["C15"], "contract": """    requires obeys_key_model::<K1>(), obeys_key_model::<K2>(),
     ensures r.wf(), r.partitions@ == Map::<K1, Partition<K2, V>>::empty(), r.desired_size == desired_size, r.current_size == 0,""",
         "entry": "broadcast use vstd::std_specs::hash::group_hash_axioms; proof { lemma_map_sum_empty::<K1, Partition<K2, V>>(psize::<K2, V>()); }"},
+    "PartitionedCache::get_without_checking_expiration": {"props": ["C05", "C15"],
+        "contract": """    requires old(self).wf(),
+    ensures final(self).wf(), // [C15:cache_invariants_kept_by_lookup]
+        same_records(*old(self), *final(self)), // [C05:lookup_leaves_records_unchanged]
+        r is Some <==> old(self).partitions@.contains_key(*partition_key) && old(self).partitions@[*partition_key].records@.contains_key(*record_key),
+        r is Some ==> r->Some_0@ == old(self).partitions@[*partition_key].records@[*record_key]@, // [C05:lookup_returns_stored_tuples]""",
+        "entry": "broadcast use vstd::std_specs::hash::group_hash_axioms, axiom_borrowed_key_updated, group_time;",
+        "anchors": [{"after": "if let Some(partition) = self.partitions.get_mut(partition_key) {", "proof": "let ghost p0 = *partition; proof { lemma_map_sum_insert(old(self).partitions@, psize::<K2, V>(), *partition_key, p0); }"},
+                    {"after": "return Some(tuples);", "at": "before", "proof": "proof { lemma_map_sum_insert(old(self).partitions@, psize::<K2, V>(), *partition_key, *partition); }"}]},
+    "PartitionedCache::get_partition_without_checking_expiration": {"props": ["C05", "C15"],
+        "contract": """    requires old(self).wf(),
+    ensures final(self).wf(), // [C15:cache_invariants_kept_by_lookup]
+        same_records(*old(self), *final(self)), // [C05:lookup_leaves_records_unchanged]
+        r is Some <==> old(self).partitions@.contains_key(*partition_key),
+        r is Some ==> r->Some_0@ == old(self).partitions@[*partition_key].records@, // [C05:lookup_returns_stored_tuples]""",
+        "entry": "broadcast use vstd::std_specs::hash::group_hash_axioms, axiom_borrowed_key_updated, group_time;",
+        "anchors": [{"after": "if let Some(partition) = self.partitions.get_mut(partition_key) {", "proof": "let ghost p0 = *partition; proof { lemma_map_sum_insert(old(self).partitions@, psize::<K2, V>(), *partition_key, p0); }"},
+                    {"after": "return Some(&partition.records);", "at": "before", "proof": "proof { lemma_map_sum_insert(old(self).partitions@, psize::<K2, V>(), *partition_key, *partition); }"}]},
+    "to_rrs": {"props": ["C05"],
+        "contract": """    ensures final(rrs)@ == old(rrs)@ + Seq::new(tuples@.len(), |i: int| rr_of(*name, tuples@[i], now)), // [C05:ttl_is_time_left_data_unchanged]""",
+        "loops": {"0": {"kw": "for", "iter_name": "itt__", "spec": """        invariant
+            itt__.seq().len() == tuples@.len(), forall|j: int| 0 <= j < tuples@.len() ==> *itt__.seq()[j] == tuples@[j],
+            rrs@ == old(rrs)@ + Seq::new(itt__.index@ as nat, |i: int| rr_of(*name, tuples@[i], now)),""",
+            "entry": "broadcast use group_time; let ghost idx = itt__.index@ as int; assert(*itt__.seq()[idx] == tuples@[idx]);"}},
+        "anchors": [{"after": "                .unwrap_or(u32::MAX),\n        });", "proof": """assert(rrs@ =~= old(rrs)@ + Seq::new((idx + 1) as nat, |i: int| rr_of(*name, tuples@[i], now)));"""}]},
+    "Cache::get_without_checking_expiration": {"props": ["C05"], "extra_rewrites": [("R17", r"for tuples in records\.values\(\)", "for tuples in itv__: shim_hashmap_values(records)")],
+        "contract": """    requires old(self).inner.wf(),
+    ensures final(self).inner.wf(), same_records(old(self).inner, final(self).inner), // [C05:lookup_leaves_records_unchanged]
+        exists|now: Instant| is_now(now) && #[trigger] lookup_result(r@, old(self).inner.partitions@, *name, qtype, now), // [C05:lookup_returns_stored_records_with_time_left]""",
+        "loops": {"0": {"kw": "for", "spec": """                        invariant
+                            values_of(recs_g, itv__.seq()),
+                            forall|j: int, i: int| #![trigger itv__.seq()[j]@[i]] 0 <= j < itv__.index@ && 0 <= i < itv__.seq()[j]@.len() ==> rrs@.contains(rr_of(*name, itv__.seq()[j]@[i], now)),
+                            forall|x: int| 0 <= x < rrs@.len() ==> exists|j: int, i: int| 0 <= j < itv__.index@ && 0 <= i < itv__.seq()[j]@.len() && #[trigger] rrs@[x] == rr_of(*name, #[trigger] itv__.seq()[j]@[i], now),
+                            itv__.index@ == itv__.seq().len() ==> any_cached(rrs@, recs_g, *name, now),""",
+            "entry": "let ghost before__ = rrs@; let ghost idx = itv__.index@ as int;"}},
+        "anchors": [
+            {"after": "            _ => (),\n        }", "proof": """proof {
+    match qtype {
+        QueryType::Record(t) => { assert(lookup_result(rrs@, old(self).inner.partitions@, *name, qtype, now)); }
+        QueryType::Wildcard => { assert(lookup_result(rrs@, old(self).inner.partitions@, *name, qtype, now)); }
+        _ => { assert(lookup_result(rrs@, old(self).inner.partitions@, *name, qtype, now)); }
+    }
+}"""},
+            {"after": "if let Some(records) = self.inner.get_partition_without_checking_expiration(name) {", "proof": "let ghost recs_g = records@;"},
+            {"after": "to_rrs(name, now, tuples, &mut rrs);", "nth": 0, "proof": """proof {
+    let add = Seq::new(tuples@.len(), |i: int| rr_of(*name, tuples@[i], now));
+    assert(rrs@ == before__ + add);
+    assert forall|j: int, i: int| 0 <= j < idx + 1 && 0 <= i < itv__.seq()[j]@.len() implies rrs@.contains(rr_of(*name, #[trigger] itv__.seq()[j]@[i], now)) by {
+        if j < idx {
+            let w = choose|w: int| 0 <= w < before__.len() && before__[w] == rr_of(*name, itv__.seq()[j]@[i], now);
+            assert(rrs@[w] == before__[w]);
+        } else { assert(rrs@[before__.len() + i] == add[i]); }
+    }
+    assert forall|x: int| 0 <= x < rrs@.len() implies exists|j: int, i: int| 0 <= j < idx + 1 && 0 <= i < itv__.seq()[j]@.len() && #[trigger] rrs@[x] == rr_of(*name, #[trigger] itv__.seq()[j]@[i], now) by {
+        if x < before__.len() {
+            assert(rrs@[x] == before__[x]);
+            let (j, i) = choose|j: int, i: int| 0 <= j < idx && 0 <= i < itv__.seq()[j]@.len() && #[trigger] before__[x] == rr_of(*name, #[trigger] itv__.seq()[j]@[i], now);
+            assert(rrs@[x] == rr_of(*name, itv__.seq()[j]@[i], now));
+        } else {
+            let i = x - before__.len();
+            assert(rrs@[x] == add[i]);
+            assert(rrs@[x] == rr_of(*name, itv__.seq()[idx]@[i], now));
+        }
+    }
+}
+assert(idx + 1 == itv__.seq().len() ==> any_cached(rrs@, recs_g, *name, now)) by {
+    if idx + 1 == itv__.seq().len() {
+        assert forall|t: RecordType, i: int| #![trigger recs_g[t]@[i]] recs_g.contains_key(t) && 0 <= i < recs_g[t]@.len() implies rrs@.contains(rr_of(*name, recs_g[t]@[i], now)) by {
+            let j = lemma_values_of_key(recs_g, itv__.seq(), t);
+            assert(itv__.seq()[j]@[i] == recs_g[t]@[i]);
+        }
+        assert forall|x: int| 0 <= x < rrs@.len() implies exists|t: RecordType, i: int| recs_g.contains_key(t) && 0 <= i < recs_g[t]@.len() && #[trigger] rrs@[x] == rr_of(*name, #[trigger] recs_g[t]@[i], now) by {
+            let (j, i) = choose|j: int, i: int| 0 <= j < idx + 1 && 0 <= i < itv__.seq()[j]@.len() && #[trigger] rrs@[x] == rr_of(*name, #[trigger] itv__.seq()[j]@[i], now);
+            let t = lemma_values_of_index(recs_g, itv__.seq(), j);
+            assert(rrs@[x] == rr_of(*name, recs_g[t]@[i], now));
+        }
+    }
+}"""},
+        ]},
+    "Cache::get": {"props": ["C05"], "extra_rewrites": [R21],
+        "contract": """    requires old(self).inner.wf(),
+    ensures final(self).inner.wf(), same_records(old(self).inner, final(self).inner),
+        forall|j: int| 0 <= j < r@.len() ==> (#[trigger] r@[j]).ttl > 0, // [C05:never_serves_a_record_with_no_time_left]
+        exists|now: Instant, all: Seq<ResourceRecord>| is_now(now) && #[trigger] lookup_result(all, old(self).inner.partitions@, *name, qtype, now)
+            && r@ == all.filter(|rr: ResourceRecord| rr.ttl > 0), // [C05:serves_exactly_the_stored_records_with_time_left]"""},
+    "Cache::insert": {"props": ["C05", "C15"],
+        "contract": """    requires old(self).inner.wf(), old(self).inner.current_size < usize::MAX,
+    ensures final(self).inner.wf(), final(self).inner.desired_size == old(self).inner.desired_size,""",
+        "entry": "broadcast use axiom_rtd_eq, axiom_rtd_obeys;"},
+    "Cache::prune": {"props": ["C15"],
+        "contract": """    requires old(self).inner.wf(),
+    ensures final(self).inner.wf(),
+        r.0 == (old(self).inner.current_size > old(self).inner.desired_size), r.1 == final(self).inner.current_size,
+        r.2 + r.3 == old(self).inner.current_size - final(self).inner.current_size,
+        final(self).inner.current_size <= old(self).inner.desired_size, clean(final(self).inner),"""},
+    "PartitionedCache::remove_least_recently_used": {"props": ["C15"],
+        "contract": """    requires old(self).wf(),
+    ensures final(self).wf(), // [C15:cache_invariants_kept_by_eviction]
+        final(self).desired_size == old(self).desired_size,
+        r == old(self).current_size - final(self).current_size, // [C15:eviction_reports_true_count]
+        clean(*old(self)) ==> clean(*final(self)), // [C15:eviction_removes_only]
+        (forall|k: K1| !old(self).partitions@.contains_key(k)) ==> r == 0 && final(self).partitions@ == old(self).partitions@,
+        (exists|k: K1| old(self).partitions@.contains_key(k)) ==> r > 0 && exists|k: K1| #[trigger] old(self).partitions@.contains_key(k)
+            && final(self).partitions@ == old(self).partitions@.remove(k) && r == old(self).partitions@[k].size
+            && forall|k2: K1| #[trigger] old(self).partitions@.contains_key(k2) ==> inst(old(self).partitions@[k].last_read) <= inst(old(self).partitions@[k2].last_read), // [C15:evicts_whole_least_recently_used_name]""",
+        "entry": "broadcast use vstd::std_specs::hash::group_hash_axioms;",
+        "anchors": [{"after": "if let Some(partition) = self.partitions.remove(&partition_key) {", "proof": """proof {
+    lemma_map_sum_remove(old(self).partitions@, psize::<K2, V>(), partition_key);
+    if clean(*old(self)) { lemma_clean_remove(old(self).partitions@, partition_key); }
+}"""}]},
+    "PartitionedCache::remove_expired_step": STEP_SPEC,
+    "PartitionedCache::remove_expired": {"props": ["C15"],
+        "contract": """    requires old(self).wf(),
+    ensures final(self).wf(), // [C15:cache_invariants_kept_by_expiry]
+        final(self).desired_size == old(self).desired_size,
+        r == old(self).current_size - final(self).current_size, // [C15:expiry_reports_true_count]
+        clean(*final(self)), // [C15:no_expired_record_left]""",
+        "loops": {"0": {"kw": "loop", "spec": """            invariant
+                self.wf(), self.desired_size == old(self).desired_size,
+                pruned == old(self).current_size - self.current_size,
+            ensures
+                clean(*self),
+            decreases self.current_size,"""}}},
+    "PartitionedCache::prune": {"props": ["C15"],
+        "contract": """    requires old(self).wf(),
+    ensures final(self).wf(), // [C15:cache_invariants_kept_by_prune]
+        r.0 == (old(self).current_size > old(self).desired_size), // [C15:prune_reports_overflow]
+        r.1 == final(self).current_size, // [C15:prune_reports_remaining]
+        r.2 + r.3 == old(self).current_size - final(self).current_size, // [C15:prune_reports_true_counts]
+        final(self).current_size <= old(self).desired_size, // [C15:no_more_than_configured_size]
+        r.3 > 0 ==> old(self).current_size - r.2 > old(self).desired_size, // [C15:evicts_only_while_over_size]
+        clean(*final(self)), // [C15:no_expired_record_left]""",
+        "loops": {"0": {"kw": "while", "spec": """            invariant
+                self.wf(), self.desired_size == old(self).desired_size,
+                num_pruned == old(self).current_size - num_expired - self.current_size,
+                num_pruned > 0 ==> old(self).current_size - num_expired > old(self).desired_size,
+                clean(*self),
+            decreases self.current_size,""",
+            "entry": "proof { if self.current_size > 0 { lemma_nonempty_if_positive(*self); } }"}},
+},
     "PartitionedCache::upsert": {"props": ["C05", "C15"],
         "contract": """    requires old(self).wf(), old(self).current_size < usize::MAX, <V as PartialEqSpec>::obeys_eq_spec(), forall|a: V, b: V| #[trigger] a.eq_spec(&b) == (a == b),
         forall|a: K1, b: K1| #[trigger] call_ensures(<K1 as Clone>::clone, (&a,), b) ==> a == b,
@@ -124,12 +267,25 @@ def build(G):
     for f in ("with_desired_size", "get_partition_without_checking_expiration", "get_without_checking_expiration", "upsert", "remove_expired", "prune", "remove_expired_step", "remove_least_recently_used"):
         specs.setdefault("PartitionedCache::" + f, {})
         specs["PartitionedCache::" + f] = dict(specs["PartitionedCache::" + f], rewrites=R18 + [R19, R20] + specs["PartitionedCache::" + f].get("extra_rewrites", []), depub=True)
-        if f in ("remove_expired", "prune"):
-            specs["PartitionedCache::" + f]["attrs"] = "#[verifier::exec_allows_no_decreases_clause]"
     G.impl(C, "<K1: Clone + Eq + Hash, K2: Copy + Eq + Hash, V: PartialEq> PartitionedCache<K1, K2, V>",
-           ["with_desired_size", "upsert"],
+           ["with_desired_size", "get_partition_without_checking_expiration", "get_without_checking_expiration", "upsert", "remove_expired", "prune", "remove_expired_step", "remove_least_recently_used"],
            "PartitionedCache::", specs)
+    T = G.src(TYPES)
+    specs["RecordTypeWithData::rtype"] = {"mode": "assume", "props": [], "contract": "    ensures r == spec_rtype_of(*self),"}
+    G.impl(T, "RecordTypeWithData", ["rtype"], "RecordTypeWithData::", specs)
+    G.top_fn(C, "to_rrs", specs)
+    for f in ("get", "get_without_checking_expiration", "insert", "prune"):
+        specs["Cache::" + f] = dict(specs["Cache::" + f], rewrites=specs["Cache::" + f].get("extra_rewrites", []), depub=True)
+    G.impl(C, "Cache", ["get", "get_without_checking_expiration", "insert", "prune"], "Cache::", specs)
     end(G)
 
 
-CANARIES = []
+CANARIES = [
+    {"name": "lru_keeps_expiry_entry", "file": CACHE, "old": "            self.expiry_priority.remove(&partition_key);\n", "new": ""},
+    {"name": "prune_stops_early", "file": CACHE, "old": "while self.current_size > self.desired_size {", "new": "while self.current_size > self.desired_size + 1 {"},
+    {"name": "prune_wrong_overflow_flag", "file": CACHE, "old": "let has_overflowed = self.current_size > self.desired_size;", "new": "let has_overflowed = self.current_size >= self.desired_size;"},
+    {"name": "lru_forgets_size", "file": CACHE, "old": "                self.current_size -= pruned;\n                pruned\n            } else {\n                0\n            }\n        } else {\n            0\n        }\n    }\n}", "new": "                pruned\n            } else {\n                0\n            }\n        } else {\n            0\n        }\n    }\n}"},
+    {"name": "upsert_no_dedup_count", "file": CACHE, "old": "                    partition.size -= 1;\n", "new": ""},
+    {"name": "upsert_min_over_type_only", "file": CACHE, "old": "for tuples in partition.records.values() {", "new": "for tuples in partition.records.get(&record_key) {"},
+    {"name": "lookup_drops_access_update", "file": CACHE, "old": "                partition.last_read = Instant::now();\n                self.access_priority", "new": "                partition.last_read = Instant::now();\n                self.expiry_priority"},
+]
